@@ -333,3 +333,22 @@ def check_function_table(ctx: Ctx, rule: str, printer: str = "numpy"):
         if got is None and fn not in producible:
             continue
         ctx.check(got in wants, rule, f"{printer}-printer::_kf::{fn}", f"{fn} -> {got}", f"{printer} printer: the function table maps `{fn}` to {got!r}, which is not {wants[0]}: the generated code computes another function than the model text says", "")
+
+
+def check_equality_text(ctx: Ctx, rule: str):
+    """The NumPy printer writes Eq(a, b) as the exact element-wise comparison `(a == b)` on every path: a tolerance
+    (`isclose`) or a special case for some operand kinds makes a condition true on a band around the threshold."""
+    from . import util
+
+    M = model(ctx)
+    eq = M.method("numpy", "_print_Equality")
+    if eq is None:
+        ctx.fail(rule, "numpy-printer::Equality::text", "numpy printer has no _print_Equality", "")
+    else:
+        et = util.text_of(ctx, eq)
+        ep_ = eq.params[-1]
+        wants_eq = ["({self._print(%s.args[0])} == {self._print(%s.args[1])})" % (ep_, ep_), "({self._print(%s.lhs)} == {self._print(%s.rhs)})" % (ep_, ep_)]
+        if et is None:
+            ctx.undecided(rule, "numpy-printer::Equality::text", "what _print_Equality returns is not understood", eq.where())
+        else:
+            ctx.check(et in wants_eq, rule, "numpy-printer::Equality::text", "(lhs == rhs)", f"numpy printer: Equality is printed as `{et}`, not as (printed lhs == printed rhs)", eq.where())
